@@ -25,7 +25,7 @@ example : ∃ d3 d4 v4, put exF exTime repaired (formatted 10) = (.ok exF.eof, d
   have hslot : ((dirSlots (formatted 10).raw 2 [2, 3, 4, 5]).find? isFreeSlot).isSome = true := by decide +kernel
   obtain ⟨x, hx⟩ := Option.isSome_iff_exists.mp hslot
   rw [volOf_eq hr]
-  exact prodos_fits_is_accepted formatted10_sinv v fsL [2, 3, 4, 5] hr ht exF exTime (upper (str "a")) exF_ok (by decide)
+  exact prodos_fits_is_accepted formatted10_sinv v fsL [2, 3, 4, 5] hr ht exF exTime (upper (str "a")) exF_ok
     (normalizePath_simple _ _ (by decide) (by decide) (by decide) (volName_len _)) (by decide) (by decide)
     (by decide +kernel) x hx (by rw [← volOf_eq hr]; decide +kernel)
 
@@ -41,7 +41,7 @@ example : ∃ g, (volOf (finalDisk (formatted 10) [.put exF exTime, .lock (str "
       rcases hop with rfl | rfl | rfl <;>
         exact ⟨rootPath_simple _ _ (by decide) (by decide) (by decide),
           fun p t a h => (by cases h),
-          fun f t h => (by cases h <;> exact ⟨exF_args, by decide⟩)⟩)
+          fun f t h => (by cases h <;> exact exF_args)⟩)
     (by decide +kernel)
     (by
       intro op hop
